@@ -69,6 +69,8 @@ def _run_all():
 def run(ctx, prop, names):
     """Evaluate the named witnesses (and their twins) as rule instances of `prop`."""
     rule = "%s.K13.witness" % prop
+    if os.environ.get("PV_NO_WITNESS"):  # tools/opmut.py only: operator mutants cannot move a type-level barrier
+        return
     res, out = _run_all()
     if not res:
         ctx.violation(rule, "anchor-missing|doc-tests", "witness/src/lib.rs", "the witness crate did not build or ran no doc-test (fail closed): %s" % out[-600:])
